@@ -53,3 +53,25 @@ Proof. intros p W. exact (@is_identity_correct FqF ark_D p W). Qed.
 Example C08_both_identity_representatives :
   is_identity identity = true /\ is_identity (mkpt zero (opp one) one zero) = true /\ eqE identity (mkpt zero (opp one) one zero) = true.
 Proof. repeat split; apply feqb_true; apply (Fm_eq q); vm_compute; reflexivity. Qed.
+
+(* ---- the same for affine points (AffinePoint: PartialEq, Hash, serialisation, is_zero) ---- *)
+Section AffineRingFacts.
+  Context {AF : AField}.
+  Add Field Fc08a : Ffield.
+  Lemma eqA_coset_gen (a : apt) : eqA a (mkapt (opp (aX a)) (opp (aY a))) = true.
+  Proof. unfold eqA. cbn [aX aY]. apply feqb_true. ring. Qed.
+  Lemma eqA_zero_gen (a : apt) : eqA a (mkapt zero one) = feqb (aX a) zero.
+  Proof. unfold eqA. cbn [aX aY]. f_equal; ring. Qed.
+End AffineRingFacts.
+Lemma eqA_is_eqE (a b : apt) : eqA a b = eqE (oa a) (oa b).
+Proof. reflexivity. Qed.
+Theorem C08_affine_eq_iff_encoding : forall a b, avalid fq_a ark_D a -> avalid fq_a ark_D b ->
+  (eqA a b = true <-> compress_ark (oa a) = compress_ark (oa b)).
+Proof. intros a b Va Vb. rewrite eqA_is_eqE. apply C08_eq_iff_encoding; apply V_of_affine; assumption. Qed.
+Theorem C08_affine_hash_respects_eq : forall a b, avalid fq_a ark_D a -> avalid fq_a ark_D b -> eqA a b = true -> hash_enc (oa a) = hash_enc (oa b).
+Proof. intros a b Va Vb E. rewrite eqA_is_eqE in E. apply C08_hash_respects_eq; [apply V_of_affine; assumption | apply V_of_affine; assumption | exact E]. Qed.
+(* both affine representatives of one element, (x, y) and (-x, -y), compare equal; the affine zero test is comparison with the affine zero *)
+Theorem C08_affine_coset_representatives_equal : forall a : apt, eqA a (mkapt (opp (aX a)) (opp (aY a))) = true.
+Proof. exact (@eqA_coset_gen FqF). Qed.
+Theorem C08_affine_identity_predicates_agree : forall a : apt, af_is_zero a = eqA a (mkapt zero one) /\ af_is_zero a = is_identity (oa a).
+Proof. intro a. split; [symmetry; exact (@eqA_zero_gen FqF a) | reflexivity]. Qed.
